@@ -214,6 +214,17 @@ impl Prop for C18 {
             })
             .boxed()
     }
+    fn fuzz_sanitize(k: &mut Trip) -> bool {
+        k.cols %= 8;
+        k.rows %= 8;
+        if let Some((m, _)) = &mut k.view {
+            m.iter_mut().for_each(|x| *x %= 4);
+        } else if k.cols == 0 || k.rows == 0 {
+            k.cols = 0;
+            k.rows = 0;
+        }
+        true
+    }
     fn random_cases(tier: Tier) -> u64 {
         if tier == Tier::Quick { 30_000 } else { 1_000_000 }
     }
